@@ -141,6 +141,53 @@ def _single_try(fn: ast.AsyncFunctionDef) -> ast.Try:
     return t
 
 
+def _inner_call_args(t: ast.Try) -> List[str]:
+    """argument list (source text) of `self._async_http_request(...)` in a retry/final try"""
+    c = t.body[0].value.value  # type: ignore[attr-defined]
+    return [ast.unparse(a) for a in c.args] + [f"{k.arg}={ast.unparse(k.value)}" for k in c.keywords]
+
+
+def _request_call_args(t: ast.Try) -> List[str]:
+    """argument list of the `.request(...)` call in the `async with` items of an inner try (exactly one such call)"""
+    found = []
+    body = t.body
+    while len(body) == 1 and isinstance(body[0], ast.AsyncWith):
+        for item in body[0].items:
+            c = item.context_expr
+            if isinstance(c, ast.Call) and isinstance(c.func, ast.Attribute) and c.func.attr == "request":
+                found.append([ast.unparse(a) for a in c.args] + [f"{k.arg}={ast.unparse(k.value)}" for k in c.keywords])
+            elif not (isinstance(c, ast.Call) and ast.unparse(c) == "ClientSession()"):
+                raise Untranslatable(f"line {c.lineno}: unexpected `async with {ast.unparse(c)[:50]}`")
+        body = body[0].body
+    if len(found) != 1:
+        raise Untranslatable(f"line {t.lineno}: expected exactly one `.request(...)` in the async-with chain, found {len(found)}")
+    return found[0]
+
+
+def _pre_try_pinned(fn: ast.AsyncFunctionDef, t: ast.Try) -> None:
+    """statements before the try: docstring, `req_headers = _request_headers(url, self._http_headers, headers)`,
+    the `log_traffic` assignment, `if log_traffic:` / `if self._with_sleep:` — nothing else"""
+    seen_hdr = False
+    for st in fn.body[: fn.body.index(t)]:
+        if isinstance(st, ast.Expr) and isinstance(st.value, ast.Constant):
+            continue
+        if isinstance(st, ast.If):
+            continue  # shapes checked by _logging
+        if isinstance(st, ast.Assign) and len(st.targets) == 1 and isinstance(st.targets[0], ast.Name):
+            tgt = st.targets[0].id
+            if tgt == "req_headers":
+                if ast.unparse(st.value) != "_request_headers(url, self._http_headers, headers)":
+                    raise Untranslatable(f"line {st.lineno}: req_headers is `{ast.unparse(st.value)[:60]}`, "
+                                         "not _request_headers(url, self._http_headers, headers)")
+                seen_hdr = True
+                continue
+            if tgt == "log_traffic":
+                continue
+        raise Untranslatable(f"line {st.lineno}: unexpected statement `{ast.unparse(st)[:60]}` before the try")
+    if not seen_hdr:
+        raise Untranslatable(f"{fn.name}: req_headers is not computed by _request_headers(...)")
+
+
 def _calls_inner(t: ast.Try) -> bool:
     if len(t.body) != 1 or not isinstance(t.body[0], ast.Return):
         return False
@@ -163,7 +210,7 @@ def _session_outer(fn: ast.AsyncFunctionDef):
     rt = loop.body[0]
     if not _calls_inner(rt) or not _calls_inner(final):
         raise Untranslatable("retry/final try body is not `return await self._async_http_request(...)`")
-    return it.args[0].value, _ladder(rt, True), _ladder(final, False)
+    return it.args[0].value, _ladder(rt, True), _ladder(final, False), _inner_call_args(rt), _inner_call_args(final)
 
 
 # ---- inventory: nothing that could be a ladder may exist outside the modelled ones -----------------------
@@ -347,7 +394,11 @@ def gen(repo: Path) -> str:
     plain = _ladder(plain_t, False)
     inner = _ladder(inner_t, False)
     outer = _find_method(sess, "async_http_request")
-    retries, retry, final = _session_outer(outer)
+    retries, retry, final, args_retry, args_final = _session_outer(outer)
+    _pre_try_pinned(plain_fn, plain_t)
+    _pre_try_pinned(inner_fn, inner_t)
+    args_plain_req = _request_call_args(plain_t)
+    args_inner_req = _request_call_args(inner_t)
     outer_body = [st for st in outer.body if not (isinstance(st, ast.Expr) and isinstance(st.value, ast.Constant))]
     _inventory(mod, [plain_t, inner_t, outer_body[0].body[0], outer_body[1]])
 
@@ -414,6 +465,13 @@ def gen(repo: Path) -> str:
     out += "/-- the `if log_traffic:` blocks (statement kinds) of the plain / session requester -/\n"
     out += f"def logPlain : LogBlock := {lean_block(log_plain)}\n"
     out += f"def logInner : LogBlock := {lean_block(log_inner)}\n\n"
+    strs = lambda xs: lean_list(lean_str(x) + ".toList" for x in xs)
+    out += "/-- argument lists (source text) of the two `self._async_http_request(...)` calls (retry loop, final attempt)\n"
+    out += "    and of the `.request(...)` call of each requester -/\n"
+    out += f"def retryCallArgs : List (List Char) := {strs(args_retry)}\n"
+    out += f"def finalCallArgs : List (List Char) := {strs(args_final)}\n"
+    out += f"def plainRequestArgs : List (List Char) := {strs(args_plain_req)}\n"
+    out += f"def innerRequestArgs : List (List Char) := {strs(args_inner_req)}\n\n"
     out += "def tables : Tables where\n"
     out += "  supers := supers\n  plain := ladderPlain\n  inner := ladderInner\n  retry := ladderRetry\n  final := ladderFinal\n"
     out += "  retries := sessionRetries\n  transport := transport\n"
